@@ -243,7 +243,8 @@ def _run_map(facts, fn, consts, u):
             continue
         pts = [e for e in p.st.events if e[0] == "point"]
         sq = [e for e in p.st.events if e[0] == "sqrt"]
-        out.append({"assume": list(p.assume), "points": pts, "sqrt": sq, "flags": set(p.flags)})
+        par = [e for e in p.st.events if e[0] == "parity"]
+        out.append({"assume": list(p.assume), "points": pts, "sqrt": sq, "flags": set(p.flags), "parity": par})
     return out
 
 
@@ -359,6 +360,11 @@ def check_maps(res, facts):
                 want_arg = g(x1) if is_qr else g(x2)
                 if not arg.equals(want_arg):
                     probs.append("the square root on the %s arm is of %s, expected g(%s)" % ("square" if is_qr else "non-square", str(arg)[:80], "x1" if is_qr else "x2 = -x1 - J/K"))
+                # RFC 9380 6.7.1 steps 6-7: the sign that is fixed is sgn0 of y itself (the root of g(x)), before the
+                # change of model; sgn0(K*y) differs from sgn0(y) for half of the inputs whenever K != 1
+                for _, pq in p.get("parity", ()):
+                    if pq is None or not pq.equals(Q.var(name)):
+                        probs.append("the sign test is applied to %s instead of y = sqrt(g(x)): the returned point is (-v, w) for the inputs where the two signs differ" % str(pq)[:60])
                 # Montgomery (s, t) = (x K, y K) -> twisted Edwards (s/t, (s-1)/(s+1)); skip the tv2 = 0 sub-path
                 if any(c.kind == "zero" and not c.neg and name in repr(c.a) for c in p["assume"]):
                     out.setdefault(is_qr, []).append(probs)
@@ -533,6 +539,12 @@ def check_xmd(res, facts):
                                 lits.add((r["op"], a["k"]["v"] << b["k"]["v"]))
         bound_ok = (("Le", 255) in lits or ("Lt", 256) in lits) and (("Lt", 65536) in lits or ("Le", 65535) in lits)
         trunc = "truncate" in names
+        # Z_pad is exactly block_size zero bytes: the slice of the static zero block runs over 0..self.block_size
+        from rules.c07 import E as _E, show as _show, A as _A
+        zp = [_E(f, t["args"][-1]) for _, t in f.calls() if t["f"].get("name") == "update" and (t["f"].get("trait") or "").endswith("Update") and "Z_PAD" in _show(_E(f, t["args"][-1]))]
+        zp_ok = zp == [("call", "index", ("Z_PAD", ("agg", "Range", (0, _A(1, "block_size")))))] or zp == [("call", "index", ("Z_PAD", ("agg", "RangeTo", (_A(1, "block_size"),))))]
+        if ev == want and not zp_ok:
+            rule.bad("ark_ff|ExpanderXmd::expand|z_pad", "Z_pad is fed as %s, expected exactly the first block_size bytes of the zero block: a clamped / differently computed length changes b_0 for hash functions whose block size it does not reproduce" % [_show(z)[:100] for z in zp], f.loc)
         if ev == want and bound_ok and trunc and asserts >= 2:
             rule.ok("ark_ff|ExpanderXmd::expand", "update sequence %s; ell <= 255 and n < 2^16 asserted; output truncated to n" % ev, f.loc)
         elif ev != want:
